@@ -171,6 +171,13 @@ RISKCFG_MODELS = [
 ]
 
 
+# staked collateral with values (Staked.tla): pool moves, settings edits and their propagation, borrow / withdraw / seizure boundaries by bisection
+STAKED_MODELS = [
+    {"name": "staked", "module": "MC_Staked.tla", "cfg": {"quick": "MC_StakedQuick.cfg", "thorough": "MC_StakedThorough.cfg"},
+     "setup": "setups/stakedmodel.json", "init_from_setup": True, "timeout": {"quick": 900, "thorough": 10000}},
+]
+
+
 def risk_prop2(ops, drivers, models=(), minnt=30):
     return {
         "models": list(models),
@@ -281,12 +288,12 @@ PROPS = {
         "rule": "each matrix cell (instruction x variant: unmodified, signer identity, missing signature, slot x foreign object; normal and frozen account; every role-gated instruction x identity after every re-assignment of a group role) executed through marginfi::entry is one evaluation, so is every role assignment and every instruction executed with a substituted price account; all are non-trivial; distinct by (cell, variant, identity, substitution, mode, result)",
         "min_nontrivial": 500,
     },
-    "C04": dict(risk_prop(["borrow", "withdraw", "kamino_withdraw", "drift_withdraw", "solend_withdraw", "tx"]), models=RISK_MODELS + RISKCFG_MODELS, drivers=RISK_DRIVERS + LEDGER_DRIVERS + STAKED_DRIVERS + KAMINO_DRIVERS + EDGE_DRIVERS),
-    "C05": risk_prop2(["liquidate"], LIQ_DRIVERS + LEDGER_DRIVERS + STAKED_DRIVERS + EDGE_DRIVERS, models=RISK_MODELS + RISKCFG_MODELS + LIQ_MODELS),
+    "C04": dict(risk_prop(["borrow", "withdraw", "kamino_withdraw", "drift_withdraw", "solend_withdraw", "tx"]), models=RISK_MODELS + RISKCFG_MODELS + STAKED_MODELS, drivers=RISK_DRIVERS + LEDGER_DRIVERS + STAKED_DRIVERS + KAMINO_DRIVERS + EDGE_DRIVERS),
+    "C05": risk_prop2(["liquidate"], LIQ_DRIVERS + LEDGER_DRIVERS + STAKED_DRIVERS + EDGE_DRIVERS, models=RISK_MODELS + RISKCFG_MODELS + LIQ_MODELS + STAKED_MODELS),
     "C07": risk_prop2(["bankruptcy"], LIQ_DRIVERS + LEDGER_DRIVERS + EDGE_DRIVERS, models=RISK_MODELS + BKR_MODELS),
-    "C09": risk_prop2(["borrow", "withdraw", "liquidate", "bankruptcy", "pulse_health"], LIQ_DRIVERS + RISK_DRIVERS + LEDGER_DRIVERS + STAKED_DRIVERS + KAMINO_DRIVERS + EDGE_DRIVERS, models=RISK_MODELS + ORACLE_MODELS + RISKCFG_MODELS),
+    "C09": risk_prop2(["borrow", "withdraw", "liquidate", "bankruptcy", "pulse_health"], LIQ_DRIVERS + RISK_DRIVERS + LEDGER_DRIVERS + STAKED_DRIVERS + KAMINO_DRIVERS + EDGE_DRIVERS, models=RISK_MODELS + ORACLE_MODELS + RISKCFG_MODELS + STAKED_MODELS),
     "C13": risk_prop2(["add_bank", "add_bank_staked", "add_bank_kamino", "add_bank_drift", "add_bank_solend", "init_staked_settings", "edit_staked_settings", "propagate_staked", "configure_bank", "configure_emode", "borrow", "withdraw", "pulse_health", "bankruptcy", "clone_emode"],
-                      LIQ_DRIVERS + RISK_DRIVERS + ADMIN_DRIVERS + STAKED_DRIVERS + KAMINO_DRIVERS + EDGE_DRIVERS, models=RISK_MODELS + CONFIG_MODELS + RISKCFG_MODELS),
+                      LIQ_DRIVERS + RISK_DRIVERS + ADMIN_DRIVERS + STAKED_DRIVERS + KAMINO_DRIVERS + EDGE_DRIVERS, models=RISK_MODELS + CONFIG_MODELS + RISKCFG_MODELS + STAKED_MODELS),
     "C14": risk_prop2(["deposit", "withdraw", "borrow", "repay", "liquidate", "bankruptcy", "propagate_fee"], LIQ_DRIVERS + RISK_DRIVERS + EDGE_DRIVERS, models=GATE_MODELS),
     "C01": dict(ledger_prop(), drivers=LEDGER_DRIVERS + EDGE_DRIVERS + LIQ_DRIVERS, models=LEDGER_MODELS + WIND_MODELS + WALK_MODELS),
     "C02": dict(ledger_prop(extra_ops=["purge", "transfer_account", "kamino_deposit", "kamino_withdraw", "drift_deposit", "drift_withdraw", "solend_deposit", "solend_withdraw"]), drivers=LEDGER_DRIVERS + LIQ_DRIVERS + ADMIN_DRIVERS + KAMINO_DRIVERS + EDGE_DRIVERS, models=LEDGER_MODELS + VENUE_MODELS + LIFE_MODELS + WIND_MODELS),
